@@ -1,4 +1,5 @@
 import Proofs.SetAlg
+import Proofs.SetAlg2
 import Generated.C07
 /-!
 # C07 — Records and record sets have value semantics and exact set algebra
@@ -9,7 +10,7 @@ insertion-ordered duplicate-free list; every loop is the code's loop), `Model.Rd
 code by the correspondence check on whole operation histories.
 -/
 namespace C07
-open Model Model.SetAlg
+open Model Model.SetAlg Model.RdsProofs
 
 variable {α : Type} [DecidableEq α]
 
@@ -87,6 +88,103 @@ theorem small_mutators (s : List α) (x y : α) (hs : s.Nodup) :
   · intro h; simp [add, h]
   · intro h; simp [add, h]
 
+/-! ## records (`dns.rdata.Rdata.__eq__`, `__hash__`, `_cmp` over the abstract record) -/
+
+/-- "two records are equal iff they have the same class and type and the same DNSSEC canonical encoding"
+(and the same relativity of their embedded names, as coded): the sequence of tests of `__eq__` decides
+exactly equality of the four components, i.e. equality of abstract records. -/
+theorem rdata_eq_iff (a b : Rd) :
+    (rdEq a b = true ↔ a.cls = b.cls ∧ a.typ = b.typ ∧ a.rel = b.rel ∧ a.dig = b.dig) ∧
+      (rdEq a b = true ↔ a = b) :=
+  ⟨rdEq_iff a b, rdEq_iff_eq a b⟩
+
+/-- "equal records hash equally", whatever Python's `hash` on bytes is. -/
+theorem rdata_hash_congr (H : Bytes → Nat) (a b : Rd) (h : rdEq a b = true) : rdHash H a = rdHash H b := by
+  rw [(rdEq_iff_eq a b).1 h]
+
+/-- "record ordering is canonical RDATA octet order": `_cmp` decides the strict total order "relative records
+first, then lexicographic octet order of the canonical encoding" (`rdLt`, stated with core `List.lt`);
+the three outcomes are exclusive and exhaustive, `== 0` exactly on equal relativity and encoding, and the
+order is transitive. -/
+theorem cmp_total_order (a b c : Rd) :
+    (rdCmp a b < 0 ↔ rdLt a b) ∧ (rdCmp a b > 0 ↔ rdLt b a) ∧
+    (rdCmp a b = 0 ↔ a.rel = b.rel ∧ a.dig = b.dig) ∧
+    (rdCmp a b < 0 ↔ rdCmp b a > 0) ∧
+    (rdCmp a b < 0 → rdCmp b c < 0 → rdCmp a c < 0) := by
+  refine ⟨rdCmp_lt a b, rdCmp_gt a b, rdCmp_eq a b, ?_, ?_⟩
+  · rw [rdCmp_lt, rdCmp_gt]
+  · intro h1 h2
+    exact (rdCmp_lt a c).2 (rdLt_trans ((rdCmp_lt a b).1 h1) ((rdCmp_lt b c).1 h2))
+
+/-! ## record sets (`dns.rdataset.Rdataset`) -/
+
+/-- "A record of a different class, type or covered type is refused": `add` raises `IncompatibleTypes`
+leaving the rdataset untouched, resp. `DifferingCovers` leaving records and `covers` untouched. -/
+theorem add_refuses (sing : List Nat) (s : Rds) (rd : Rd) (ttl : Option Nat) :
+    ((s.cls ≠ rd.cls ∨ s.typ ≠ rd.typ) → rdsAdd sing s rd ttl = (s, some .incompatibleTypes)) ∧
+    (s.cls = rd.cls → s.typ = rd.typ → (s.typ = 46 ∨ s.typ = 24) → ¬ (s.items = [] ∧ s.covers = 0) →
+      s.covers ≠ rd.covers →
+      (rdsAdd sing s rd ttl).2 = some .differingCovers ∧ (rdsAdd sing s rd ttl).1.items = s.items ∧
+        (rdsAdd sing s rd ttl).1.covers = s.covers) :=
+  ⟨rdsAdd_incompatible sing s rd ttl, rdsAdd_differingCovers sing s rd ttl⟩
+
+/-- "singleton types keep only the newest record": after a successful `add` of a record of a singleton type
+to a non-empty rdataset the rdataset contains exactly that record; for every other type `add` is `Set.add`. -/
+theorem singleton_keeps_newest (sing : List Nat) (s : Rds) (rd : Rd) (ttl : Option Nat)
+    (hc : s.cls = rd.cls) (ht : s.typ = rd.typ) (hns : ¬ (s.typ = 46 ∨ s.typ = 24)) :
+    (rdsAdd sing s rd ttl).2 = none ∧
+    (rd.typ ∈ sing → s.items ≠ [] → (rdsAdd sing s rd ttl).1.items = [rd]) ∧
+    (rd.typ ∉ sing → (rdsAdd sing s rd ttl).1.items = SetAlg.add s.items rd) := by
+  rw [rdsAdd_ok sing s rd ttl hc ht hns]
+  obtain ⟨_, _, _, _, i5⟩ := insertStep_fields sing (mergeTtl s ttl) rd
+  rw [(mergeTtl_fields s ttl).1] at i5
+  refine ⟨rfl, ?_, ?_⟩
+  · intro h1 h2
+    have : s.items.length > 0 := List.length_pos_iff.2 h2
+    simp only [i5, h1, this, and_self, if_true]
+  · intro h1
+    simp only [i5, h1, false_and, if_false]
+
+/-- the generated singleton set is the one the model is run with; SOA and CNAME are in it (non-vacuity of
+`singleton_keeps_newest` against the code's current table) -/
+theorem singletons_generated : 5 ∈ Consts.singletons ∧ 6 ∈ Consts.singletons ∧ 1 ∉ Consts.singletons := by
+  decide
+
+/-- "the set's TTL is the minimum of the TTLs merged into it", stated over histories exactly as the code
+behaves: after any sequence of operations (each possibly raising, binary ones with arbitrary or aliased
+operands) on a freshly constructed rdataset, the TTL equals the minimum of the TTLs merged (constructor
+argument, `add(…, ttl)`, `update_ttl`, and the other operand's TTL in `union_update`, `intersection_update`,
+`update`, `symmetric_difference_update`) since a merge last found the set empty. -/
+theorem ttl_is_min (sing : List Nat) (cls typ covers ttl0 : Nat) (ops : List Op) :
+    (run sing (rdsNew cls typ covers ttl0, [ttl0]) ops).2 ≠ [] ∧
+    (run sing (rdsNew cls typ covers ttl0, [ttl0]) ops).1.ttl =
+      minOf (run sing (rdsNew cls typ covers ttl0, [ttl0]) ops).2 :=
+  run_ttl sing ops _ _ ⟨by simp, rfl⟩
+
+/-- the overridden update methods refine the `Set` algebra: the rdataset invariant (duplicate-free, all
+records of the set's class and type) is kept by `add` and by the loops over `add` whatever the outcome, and
+for a type that is neither a singleton nor a signature, `union_update`/`update` with records of the same
+class and type is `Set.union_update` on the items (plus the TTL merge), so `ops_closed_form` and `mem_laws`
+apply to rdatasets. -/
+theorem rds_refines_set (sing : List Nat) (s o : Rds) (rd : Rd) (ttl : Option Nat) (hs : WfRds s) :
+    WfRds (rdsAdd sing s rd ttl).1 ∧ WfRds (rdsUnionUpdate sing s o false).1 ∧ WfRds (rdsUpdate sing s o).1 ∧
+    (s.typ ∉ sing → ¬ (s.typ = 46 ∨ s.typ = 24) → (∀ r ∈ o.items, r.cls = s.cls ∧ r.typ = s.typ) →
+      rdsUnionUpdate sing s o false =
+        ({ updateTtl s o.ttl with items := SetAlg.unionUpdate s.items o.items }, none)) := by
+  have hw1 : WfRds (updateTtl s o.ttl) := by
+    obtain ⟨e1, e2, e3, _⟩ := updateTtl_fields s o.ttl
+    exact wf_of_fields s _ hs e1 e2 e3
+  refine ⟨rdsAdd_wf sing s rd ttl hs, ?_, ?_, ?_⟩
+  · simp only [rdsUnionUpdate, Bool.false_eq_true, if_false]
+    exact rdsAddAll_wf sing _ _ hw1
+  · simp only [rdsUpdate]
+    exact rdsAddAll_wf sing _ _ hw1
+  · intro h1 h2 h3
+    obtain ⟨e1, e2, e3, _⟩ := updateTtl_fields s o.ttl
+    simp only [rdsUnionUpdate, Bool.false_eq_true, if_false]
+    rw [rdsAddAll_refines sing (updateTtl s o.ttl) o.items (by rw [e3]; exact h1) (by rw [e3]; exact h2)
+      (by intro r hr; rw [e2, e3]; exact h3 r hr), e1]
+
 /-- **partial (enumeration, not proof)**: "Names and records are immutable values (no attribute can be
 rebound and no field is a mutable container)" and "ImmutableRdataset: mutators raise".  The finite surface
 (every immutable class × every slot × setattr/delattr, field carrier types of every specimen, every mutator
@@ -102,5 +200,15 @@ example : unionUpdate [3, 1, 2] [2, 5, 1, 4] = [3, 1, 2, 5, 4] ∧ interUpdate [
     diffUpdate [3, 1, 2] [2, 5] = [3, 1] ∧ symDiffUpdate [3, 1, 2] [2, 5, 1, 4] = [3, 5, 4] := by decide
 example : setEq [1, 2, 3] [3, 1, 2] = true ∧ setEq [1, 2] [1, 3] = false := by decide
 example : ([3, 1, 2] : List Nat).Nodup := by decide
+-- a CNAME rdataset keeps only the newest record, and its TTL is the minimum merged since it was last empty
+example : (run Consts.singletons (rdsNew 1 5 0 300, [300])
+    [.add ⟨1, 5, false, [1]⟩ (some 100), .add ⟨1, 5, false, [2]⟩ (some 500)]).1 =
+      { cls := 1, typ := 5, covers := 0, ttl := 100, items := [⟨1, 5, false, [2]⟩] } := by decide
+-- an RRSIG covering NS is refused by an rdataset of RRSIGs covering A
+example : (rdsAdd Consts.singletons { cls := 1, typ := 46, covers := 1, ttl := 5, items := [⟨1, 46, false, [0, 1, 9]⟩] }
+    ⟨1, 46, false, [0, 2, 9]⟩ none).2 = some .differingCovers := by decide
+-- relative records sort first; otherwise octet order with the shorter encoding first
+example : rdLt ⟨1, 15, true, [9]⟩ ⟨1, 15, false, [0]⟩ ∧ rdLt ⟨1, 16, false, [1]⟩ ⟨1, 16, false, [1, 0]⟩ := by
+  unfold rdLt; decide
 
 end C07
